@@ -11,6 +11,7 @@ import (
 
 	"github.com/evolbioinfo/goalign/align"
 
+	"verif/lib/conc"
 	"verif/lib/gen"
 	"verif/lib/h"
 	"verif/lib/mon"
@@ -1895,6 +1896,7 @@ func main() {
 	mon.Floor("cli-multi:ok", 60)
 	mon.Floor("profile-file:more-than-100-sites", 500)
 	mon.Floor("refmut:after-edit", 1000)
+	mon.Floor("concurrent:calls", 500)
 	mon.Main("C14", []mon.Sub{
 		{Name: "witness", Quick: 12, Thorough: 12, Run: runWitness},
 		{Name: "iupac", Quick: 512, Thorough: 512, Run: runIupac},
@@ -1905,6 +1907,7 @@ func main() {
 		{Name: "unique", Quick: 8000, Thorough: 150000, Run: runUnique},
 		{Name: "refmut", Quick: 8000, Thorough: 150000, Run: runRefMut},
 		{Name: "codon", Quick: 3000, Thorough: 40000, Run: runCodon},
+		{Name: "concurrent", Quick: 64, Thorough: 1200, Race: true, Run: func(c *mon.Case) { conc.Run(c, "stats") }},
 		{Name: "cli", Quick: 368, Thorough: 3680, Serial: true, Run: runCli},
 		{Name: "profile-file", Quick: 2000, Thorough: 40000, Run: runProfileFile},
 		{Name: "cli-multi", Quick: 130, Thorough: 1300, Run: runCliMulti},
